@@ -6,6 +6,7 @@ import (
 	"sort"
 	"sync"
 	"sync/atomic"
+	"time"
 
 	goat "github.com/avos-io/goat"
 	"github.com/avos-io/goat/gen/goatorepo"
@@ -112,11 +113,28 @@ func c18Run(tier string, seed int64, idx int) *core.Result {
 	})
 	h.Install()
 	shared := wire.NewLink(0, idx%2 == 0)
-	if c.Family == "sequences" && idx%4 == 1 {
+	abandon := c.Family == "sequences" && idx%8 == 5
+	if c.Family == "sequences" && idx%4 == 1 && !abandon {
 		// one write on the shared transport fails (once): the logical connection whose Write it was
 		// learns of it; nothing else changes - in particular nobody has been cancelled
 		shared.B.FailWritesAt(1)
 		res.Stat("shared_write_faults", 1)
+	}
+	// abandon variant: the first connection's first Write is given up by its caller (context) while
+	// the shared transport is stalled inside that write; the write then completes, and the
+	// connection's next write hits a one-shot fault: every Write reports its own envelope's outcome
+	const abandonID = uint64(1)<<32 | 0xabad
+	var abandonedN, abandonFaults atomic.Int64
+	stallEntered := make(chan struct{})
+	stallRelease := make(chan struct{})
+	if abandon {
+		var once sync.Once
+		shared.B.SetOnWriteEntry(func(r *wire.Rpc) {
+			if r.GetId() == abandonID {
+				once.Do(func() { close(stallEntered) })
+				<-stallRelease
+			}
+		})
 	}
 	ctx, cancel := context.WithCancel(context.Background())
 	defer cancel()
@@ -191,6 +209,34 @@ func c18Run(tier string, seed int64, idx int) *core.Result {
 			nw := writesPerConn
 			if n > 1 {
 				nw = 3 // only the first connection's writer hammers
+			}
+			if abandon && n == 1 {
+				actx, acancel := context.WithCancel(ctx)
+				go func() {
+					select {
+					case <-stallEntered:
+					case <-ctx.Done():
+					}
+					acancel()
+				}()
+				e0 := &wire.Rpc{Id: abandonID, Header: &goatorepo.RequestHeader{Method: "/w", Source: "conn1", Destination: "peer"}, Body: &goatorepo.Body{Data: []byte("abandoned")}}
+				before := shared.B.Writes()
+				err := rw.Write(actx, e0)
+				acancel()
+				close(stallRelease)
+				if err == nil {
+					mu.Lock()
+					wroteIDs[e0.Id] = proto.Clone(e0).(*wire.Rpc)
+					mu.Unlock()
+				} else {
+					abandonedN.Add(1)
+				}
+				// the abandoned envelope's write completes now; the connection's next write fails once
+				for k := 0; k < 400 && shared.B.Writes() == before; k++ {
+					time.Sleep(time.Millisecond)
+				}
+				shared.B.FailWritesAt(shared.B.Writes())
+				abandonFaults.Add(1)
 			}
 			for i := 0; i < nw; i++ {
 				e := &wire.Rpc{Id: uint64(n)<<32 | uint64(i), Header: &goatorepo.RequestHeader{Method: "/w", Source: fmt.Sprintf("conn%d", n), Destination: "peer",
@@ -440,6 +486,10 @@ func c18Run(tier string, seed int64, idx int) *core.Result {
 		}
 	}
 	res.Stat("logical_writes_checked", int64(len(wroteIDs)))
+	if abandon {
+		res.Stat("writes_abandoned_inside_the_shared_write", abandonedN.Load())
+		res.Stat("shared_write_faults", abandonFaults.Load())
+	}
 	mu.Unlock()
 	smu.Unlock()
 	// oracle part 3: after Cancel the victim's reader and writer have failed (not blocked)
@@ -524,7 +574,7 @@ func init() {
 	core.Register(&core.Prop{
 		ID:             "C18",
 		Level:          "fault_enumeration",
-		Rule:           "(sequences) 1..8 keys, 200..600 uniquely numbered envelopes with random keys on the shared link, one always-draining reader and one writer goroutine per announced logical connection: per key the sequence read equals the fed subsequence, one announcement per key, every envelope written on a logical connection arrives unchanged exactly once on the shared transport; every fourth case the shared transport fails one write and works again: the writers go on, every later write must return and nothing whose Write returned nil may be missing. (cancel / cancel-writer) Cancel(key) after step s, with a writer hammering the connection: no Write begun after Cancel returned succeeds, and none of their envelopes reaches the shared transport; (cancel-handoff) Cancel placed by a rendezvous hook exactly between Run's lookup and its hand-off; (stop / stop-handoff) Stop after step s, also while Run is parked handing over to consumers that do not read: the process must survive, reads/writes on the cancelled connection return, Run returns - all judged at final states. (rpc) C01 fan-in cases and C02 cases forced through k clients - fan-in - Demux - one Server. Distinct = case tuples; all non-trivial.",
+		Rule:           "(sequences) 1..8 keys, 200..600 uniquely numbered envelopes with random keys on the shared link, one always-draining reader and one writer goroutine per announced logical connection: per key the sequence read equals the fed subsequence, one announcement per key, every envelope written on a logical connection arrives unchanged exactly once on the shared transport; every fourth case the shared transport fails one write and works again (every eighth: after the first connection's first Write was given up by its caller while the shared transport was stalled inside it): the writers go on, every later write must return and nothing whose Write returned nil may be missing. (cancel / cancel-writer) Cancel(key) after step s, with a writer hammering the connection: no Write begun after Cancel returned succeeds, and none of their envelopes reaches the shared transport; (cancel-handoff) Cancel placed by a rendezvous hook exactly between Run's lookup and its hand-off; (stop / stop-handoff) Stop after step s, also while Run is parked handing over to consumers that do not read: the process must survive, reads/writes on the cancelled connection return, Run returns - all judged at final states. (rpc) C01 fan-in cases and C02 cases forced through k clients - fan-in - Demux - one Server. Distinct = case tuples; all non-trivial.",
 		Plan:           func(tier string, seed int64) int { return len(c18List(tier)) },
 		ThoroughRounds: 8,
 		Run:            c18Run,
